@@ -193,7 +193,7 @@ class PDFPage:
 
         try:
             return self._normalize_rect(
-                parse_rect(resolve1(val) for val in resolve1(value))
+                parse_rect(resolve1(val) for val in list_value(value))
             )
 
         except PDFValueError:
@@ -207,7 +207,7 @@ class PDFPage:
 
         try:
             return self._normalize_rect(
-                parse_rect(resolve1(val) for val in resolve1(value))
+                parse_rect(resolve1(val) for val in list_value(value))
             )
 
         except PDFValueError:
